@@ -678,3 +678,321 @@ func floatTexts(acc map[string]bool) []string {
 	}
 	return out
 }
+
+// ---------- law oracles for the node API (mirrors of the theorems of ElemsProofs / NodeApiProofs / MatchAgreeProofs) ----------
+
+const oddContentClass14 = "C14/panic-visitFieldsWhileTrue-index-oob"
+
+// oddContentPanic14: the listed shape (C12: panic:kyaml/yaml.visitFieldsWhileTrue:index-oob): a reader of mapping
+// fields ran off a Content slice of odd length (a sequence read as a mapping, or a malformed mapping)
+func oddContentPanic14(msg string, n *kyaml.Node) bool {
+	return strings.Contains(msg, "index out of range") && n != nil && len(n.Content)%2 == 1 &&
+		(n.Kind == kyaml.SequenceNode || n.Kind == kyaml.MappingNode)
+}
+
+func selMatches14(k, v string, e *kyaml.Node) bool {
+	if k == "" {
+		return e.Value == v
+	}
+	if e.Kind != kyaml.MappingNode {
+		return false
+	}
+	for i := 0; i+1 < len(e.Content); i += 2 {
+		if e.Content[i].Value == k {
+			return e.Content[i+1].Value == v
+		}
+	}
+	return false
+}
+
+func cleanList14(n *kyaml.Node) bool {
+	for _, e := range n.Content {
+		if e.Tag == kyaml.NodeTagNull || (e.Kind == kyaml.MappingNode && len(e.Content) == 0) {
+			return false
+		}
+	}
+	return true
+}
+
+func plainPart14(p string) bool {
+	return p != "" && p == strings.TrimSpace(p) && classify14(p).kind == pkKey
+}
+
+func lawsAPI14(s sink, c case14, d *docCtx14) (string, bool) {
+	a := c.API
+	report := func(law, detail string) {
+		s.Violation(OracleViolation{Law: law, Class: "C14/" + law, Detail: detail, Replay: c})
+	}
+	doc := d.ref.Copy()
+	cls, found, _, msg := execAPI14(doc, c)
+	if cls == ClsPanic {
+		var target *kyaml.Node
+		switch c.Op {
+		case "rawfield", "rawmapfieldvalue", "rawfields":
+			target = a.rawNode().YNode()
+		default:
+			if _, x, _ := lookupOn(d.orig, c.Path); x != nil {
+				target = x.YNode()
+			}
+		}
+		class := panicClass14(msg)
+		if oddContentPanic14(msg, target) {
+			class = oddContentClass14
+		}
+		s.Violation(OracleViolation{Law: "no_panic", Class: class, Detail: fmt.Sprintf("op %s panics: %s", c.Op, msg), Replay: c})
+		return cls, false
+	}
+	checkWellFormed14(s, c, cls, doc)
+	_, at, _ := lookupOn(d.orig, c.Path) // the node the filter is applied to (in the original)
+	switch c.Op {
+	case "elemmatch":
+		// match_element_is_selector: Lookup(path) | MatchElement(k, v)  ==  Lookup(path..., "[k=v]")
+		if len(a.Keys) == 1 && len(a.Values) == 1 && !a.Any && a.Create == nil && !strings.Contains(a.Keys[0], "=") {
+			sel := "[" + a.Keys[0] + "=" + a.Values[0] + "]"
+			if pt := classify14(sel); pt.kind == pkSel && pt.nm == a.Keys[0] && pt.val == a.Values[0] && sel == strings.TrimSpace(sel) {
+				s.Count("law_domain", "elemmatch-is-selector")
+				d2 := d.ref.Copy()
+				cls2, f2, _ := lookupOn(d2, append(append([]string{}, c.Path...), sel))
+				if cls2 != cls || !eqR14(f2, found) {
+					report("match_element_is_selector", fmt.Sprintf("MatchElement gives %s %s, the selector path gives %s %s", cls, optString(found), cls2, optString(f2)))
+				}
+			}
+		}
+	case "elemappend":
+		if cls == ClsOk && at != nil && at.YNode().Kind == kyaml.SequenceNode && len(a.Elements) == 1 {
+			s.Count("law_domain", "elemappend")
+			_, last, _ := lookupOn(doc, append(append([]string{}, c.Path...), "-"))
+			if last == nil || !eqNode14(last.YNode(), a.Elements[0].build().YNode(), true) {
+				report("elem_append_get", "after ElementAppender the last element is not the appended one: "+optString(last))
+			}
+			_, after, _ := lookupOn(doc, c.Path)
+			for i, e := range at.YNode().Content {
+				if after == nil || i >= len(after.YNode().Content) || !eqNode14(after.YNode().Content[i], e, true) {
+					report("elem_append_frame", fmt.Sprintf("ElementAppender changed element %d", i))
+					break
+				}
+			}
+		}
+	case "elemset":
+		if len(a.Keys) != 1 || len(a.Values) != 1 || a.Keys[0] == "" || a.Values[0] == "" || cls != ClsOk ||
+			at == nil || at.YNode().Kind != kyaml.SequenceNode || !cleanList14(at.YNode()) {
+			break
+		}
+		k, v := a.Keys[0], a.Values[0]
+		_, after, _ := lookupOn(doc, c.Path)
+		if after == nil {
+			break
+		}
+		if a.Element == nil {
+			// elem_setter_delete: nothing answers to the key afterwards; the others keep their order
+			s.Count("law_domain", "elemset-delete")
+			want := []*kyaml.Node{}
+			for _, e := range at.YNode().Content {
+				if !selMatches14(k, v, e) {
+					want = append(want, e)
+				}
+			}
+			ok := len(want) == len(after.YNode().Content)
+			for i := 0; ok && i < len(want); i++ {
+				ok = eqNode14(want[i], after.YNode().Content[i], true)
+			}
+			if !ok {
+				report("elem_setter_delete", "deleting by key did not leave exactly the other elements: "+optString(after))
+			}
+			break
+		}
+		x := a.Element.build()
+		if kyaml.IsMissingOrNull(x) || !selMatches14(k, v, x.YNode()) {
+			break
+		}
+		s.Count("law_domain", "elemset-laws")
+		// put-get
+		var got *kyaml.RNode
+		protect14(func() error { var e error; got, e = after.Pipe(kyaml.MatchElement(k, v)); return e })
+		if got == nil || !eqR14(got, x) {
+			report("elem_setter_put_get", "after ElementSetter MatchElement finds "+optString(got)+", want "+docString(x))
+		}
+		// put-put (idempotence)
+		doc2 := doc.Copy()
+		c2 := c
+		cls2, _, _, _ := execAPI14(doc2, c2)
+		if cls2 != ClsOk || !eqR14(doc2, doc) {
+			report("elem_setter_put_put", "a second identical ElementSetter changed the document: "+docString(doc)+" -> "+docString(doc2))
+		}
+		// frame: elements answering to another value of the key
+		seen := map[string]bool{v: true}
+		for _, e := range at.YNode().Content {
+			if e.Kind != kyaml.MappingNode {
+				continue
+			}
+			for i := 0; i+1 < len(e.Content); i += 2 {
+				if e.Content[i].Value == k && !seen[e.Content[i+1].Value] {
+					w := e.Content[i+1].Value
+					seen[w] = true
+					var b, f *kyaml.RNode
+					protect14(func() error { var er error; b, er = at.Pipe(kyaml.MatchElement(k, w)); return er })
+					protect14(func() error { var er error; f, er = after.Pipe(kyaml.MatchElement(k, w)); return er })
+					if !eqR14(b, f) {
+						report("elem_setter_frame", fmt.Sprintf("ElementSetter %s=%s changed the element %s=%s", k, v, k, w))
+					}
+				}
+			}
+		}
+		// get-put: the element found is the only match
+		n := 0
+		var only *kyaml.Node
+		for _, e := range at.YNode().Content {
+			if selMatches14(k, v, e) {
+				n++
+				only = e
+			}
+		}
+		if n == 1 {
+			doc3 := d.ref.Copy()
+			cls3, _ := protect14(func() error {
+				_, e := doc3.Pipe(kyaml.Lookup(c.Path...), kyaml.ElementSetter{Keys: []string{k}, Values: []string{v}, Element: kyaml.CopyYNode(only)})
+				return e
+			})
+			if cls3 != ClsOk || !eqR14(doc3, d.ref) {
+				report("elem_setter_get_put", "writing back the element found changed the document: "+docString(d.ref)+" -> "+docString(doc3))
+			}
+		}
+	case "teeset":
+		// walk_tee: the document changes as under the wrapped filter; the node at the path is returned
+		d2 := d.ref.Copy()
+		var f2 *kyaml.RNode
+		cls2, _ := protect14(func() error {
+			var e error
+			f2, e = d2.Pipe(kyaml.Lookup(c.Path...), kyaml.SetField(a.Name, a.Element.build()))
+			return e
+		})
+		_ = f2
+		if cls2 != cls || (cls == ClsOk && !eqR14(d2, doc)) {
+			report("tee", fmt.Sprintf("Tee(SetField) gives %s %s, SetField alone %s %s", cls, docString(doc), cls2, docString(d2)))
+		}
+		if cls == ClsOk && found != nil {
+			if _, x, _ := lookupOn(doc, c.Path); x == nil || x.YNode() != found.YNode() {
+				report("tee", "Tee did not return the node it was applied to")
+			}
+		}
+	case "setlabel", "setannotation":
+		fld := "labels"
+		if c.Op == "setannotation" {
+			fld = "annotations"
+		}
+		if cls != ClsOk {
+			break
+		}
+		base := d.ref.Copy()
+		if c.Op == "setannotation" {
+			if e := kyaml.ClearEmptyAnnotations(base); e != nil {
+				break
+			}
+		}
+		// set_label_is_put / set_annotation_is_put
+		v := kyaml.NewStringRNode(a.V)
+		v.YNode().Style = kyaml.SingleQuotedStyle
+		clsP, _, _ := putOn(base, []string{"metadata", fld}, a.K, v)
+		if clsP != ClsOk || !eqR14(base, doc) {
+			report("meta_setter_is_put", fmt.Sprintf("Set%s differs from the put on metadata.%s: %s vs %s (%s)", fld, fld, docString(doc), docString(base), clsP))
+		}
+		// put-get (no null on metadata.<fld>)
+		pre := d.ref.Copy()
+		if c.Op == "setannotation" {
+			_ = kyaml.ClearEmptyAnnotations(pre)
+		}
+		if !nullOnPath14(pre, []string{"metadata", fld}) {
+			s.Count("law_domain", "meta-setter-put-get")
+			_, got, _ := lookupOn(doc, []string{"metadata", fld, a.K})
+			if plainPart14(a.K) && (got == nil || got.YNode().Value != a.V) {
+				report("meta_setter_put_get", "after the setter the value is "+optString(got))
+			}
+		}
+	case "visitfields":
+		// visit_fields_nodup: every field once, in document order, when no key is repeated
+		if cls == ClsOk && at != nil && at.YNode().Kind == kyaml.MappingNode && !hasDupKeysTop14(at.YNode()) {
+			s.Count("law_domain", "visitfields-order")
+			i := 0
+			ok := true
+			_ = at.VisitFields(func(mn *kyaml.MapNode) error {
+				y := at.YNode()
+				if 2*i+1 >= len(y.Content) || mn == nil || mn.Key.YNode() != y.Content[2*i] || mn.Value.YNode() != y.Content[2*i+1] {
+					ok = false
+				}
+				i++
+				return nil
+			})
+			if !ok || 2*i != len(at.YNode().Content) {
+				report("visit_fields_order", "VisitFields did not visit the fields once each in document order")
+			}
+		}
+	case "fieldclear":
+		if cls == ClsOk && !a.IfEmpty && at != nil && at.YNode().Kind == kyaml.MappingNode && !hasDupKeysTop14(at.YNode()) {
+			s.Count("law_domain", "fieldclear")
+			_, after, _ := lookupOn(doc, c.Path)
+			if after == nil {
+				break
+			}
+			if after.Field(a.Name) != nil {
+				report("field_clearer_get", "the field is still there after FieldClearer")
+			}
+			y := at.YNode()
+			j := 0
+			for i := 0; i+1 < len(y.Content); i += 2 {
+				if y.Content[i].Value == a.Name {
+					continue
+				}
+				ay := after.YNode()
+				if j+1 >= len(ay.Content) || ay.Content[j].Value != y.Content[i].Value || !eqNode14(ay.Content[j+1], y.Content[i+1], true) {
+					report("field_clearer_frame", "FieldClearer changed another field: "+y.Content[i].Value)
+					break
+				}
+				j += 2
+			}
+		}
+	}
+	return cls, found != nil
+}
+
+func hasDupKeysTop14(y *kyaml.Node) bool {
+	seen := map[string]bool{}
+	for i := 0; i+1 < len(y.Content); i += 2 {
+		if seen[y.Content[i].Value] {
+			return true
+		}
+		seen[y.Content[i].Value] = true
+	}
+	return false
+}
+
+// lawPM14: lookup_pm_agree on the implementation: for a path of plain field names, Lookup and PathMatcher (no Create)
+// find the same node, or both nothing, or both fail.
+func lawPM14(s sink, c case14, d *docCtx14) {
+	for _, p := range c.Path {
+		if !plainPart14(p) {
+			return
+		}
+	}
+	s.Count("law_domain", "lookup-pathmatcher-agree")
+	cls, found, _ := lookupOn(d.orig, c.Path)
+	d2 := d.ref.Copy()
+	var res *kyaml.RNode
+	pm := &kyaml.PathMatcher{Path: c.Path}
+	cls2, _ := protect14(func() error { var e error; res, e = pm.Filter(d2); return e })
+	ok := cls == cls2
+	if ok && cls == ClsOk {
+		n := 0
+		if res != nil {
+			n = len(res.YNode().Content)
+		}
+		if found == nil {
+			ok = n == 0
+		} else {
+			ok = n == 1 && eqNode14(res.YNode().Content[0], found.YNode(), true) && eqR14(d2, d.ref)
+		}
+	}
+	if !ok {
+		s.Violation(OracleViolation{Law: "lookup_pm_agree", Class: "C14/lookup_pm_agree",
+			Detail: fmt.Sprintf("Lookup gives %s %s, PathMatcher %s %s", cls, optString(found), cls2, optString(res)), Replay: c})
+	}
+}
